@@ -1,5 +1,5 @@
 """C18  A db_session commits exactly when its body succeeds."""
-import ast
+import ast, re
 from ..loader import dotted, walk_no_nested, norm, head, calls_in, const
 from ..q import nodes_calling, is_call_to
 
@@ -98,23 +98,58 @@ def run(ctx):
         ok = bool(rb) and g.exit.id not in rr and g.raise_.id not in rr
         ctx.ob('C18-GATE.else-rolls-back', cr, t.stmt, ok,
                '' if ok else 'the not-can_commit branch can leave without rollback()')
-    # definitions of can_commit
+    # the decision itself: evaluate the function for "an exception is present and the session does not allow it" (exc_type is not None; neither
+    # issubclass(exc_type, allowed_exceptions) nor the allowed_exceptions predicate says yes), tracking local flags; commit() must be
+    # unreachable.  Whatever else the decision might consult is unknown (both outcomes explored), so a decision based on anything but the
+    # documented criteria is reported as well.  (Local aliases such as `allowed = db_session.allowed_exceptions` make no difference.)
+    from ..typestate import Machine, eval_test
     recv = cr.recv
     p_type, p_exc = cr.params[1], cr.params[2]
-    allowed_rhs = {'True', 'issubclass(%s, tuple(%s.allowed_exceptions))' % (p_type, recv), '%s.allowed_exceptions(%s)' % (recv, p_exc)}
-    defs = [n for n in g.nodes if n.kind == 'stmt' and isinstance(n.ast, ast.Assign)
-            and any(dotted(t) == 'can_commit' for t in n.ast.targets)]
-    ctx.floor('C18-GATE', len(defs), 3, 'definitions of can_commit')
-    none_tests = {t.id for t in g.nodes if t.kind == 'test' and norm(t.ast) == '%s is None' % p_type}
-    for d in defs:
-        rhs = norm(d.ast.value)
-        ok = rhs in allowed_rhs
-        detail = '' if ok else 'can_commit defined from %s' % rhs
-        if ok and rhs == 'True':
-            rr = g.reach([g.entry], edge_ok=lambda x, y, lab: not (x in none_tests and lab == 'T'))
-            if d.id in rr: ok = False; detail = '`can_commit = True` reachable although an exception is present'
-        ctx.ob('C18-GATE.can_commit-definition', cr, d.ast, ok, detail,
-               expected='one of %s' % sorted(allowed_rhs))
+    names = sorted({t_.id for st in ast.walk(cr.node) if isinstance(st, ast.Assign) for t_ in st.targets if isinstance(t_, ast.Name)})
+    def crit(text):
+        t_ = text.replace(' ', '')
+        if t_ == p_type + 'isNone': return False
+        if t_ == p_type + 'isnotNone': return True
+        if t_.startswith('issubclass(%s,' % p_type) and 'allowed_exceptions' in t_: return False
+        if re.fullmatch(r'(\w+\.)?allowed_exceptions\(%s\)' % p_exc, t_): return False
+        return None
+    def atom(text, env):
+        c = crit(text)
+        if c is not None: return c
+        return env.get(text)
+    def effect(node, env):
+        st = node.ast
+        if node.kind == 'stmt' and isinstance(st, ast.Assign) and len(st.targets) == 1 and isinstance(st.targets[0], ast.Name):
+            v = eval_test(st.value, lambda t_, n_: atom(t_, env)) if isinstance(st.value, (ast.Constant, ast.Call, ast.Compare, ast.BoolOp, ast.UnaryOp, ast.Name)) else None
+            if isinstance(st.value, ast.Constant) and not isinstance(st.value.value, bool): v = None
+            return {'normal': [{st.targets[0].id: v}]}
+        return None
+    IN = Machine(g, names, effect, atom).run([{n_: None for n_ in names}])
+    bad = [cn for cn in commits if cn.id in IN]
+    ctx.ob('C18-GATE.disallowed-exception-never-commits', cr, bad[0].ast if bad else cr.node, not bad,
+           '' if not bad else 'with an exception present that is neither a subclass of allowed_exceptions nor accepted by the allowed_exceptions predicate, commit() at line %d is '
+           'still reachable: the failed body is committed (or the decision depends on something other than the documented criteria)' % bad[0].lineno,
+           node=bad[0].ast if bad else None)
+    # and a body that finished normally does commit: with exc_type None, rollback() is not reached before commit()
+    def crit2(text):
+        t_ = text.replace(' ', '')
+        if t_ == p_type + 'isNone': return True
+        if t_ == p_type + 'isnotNone': return False
+        return None
+    def atom2(text, env):
+        c = crit2(text)
+        return c if c is not None else env.get(text)
+    def effect2(node, env):
+        st = node.ast
+        if node.kind == 'stmt' and isinstance(st, ast.Assign) and len(st.targets) == 1 and isinstance(st.targets[0], ast.Name):
+            v = eval_test(st.value, lambda t_, n_: atom2(t_, env)) if isinstance(st.value, (ast.Constant, ast.Call, ast.Compare, ast.BoolOp, ast.UnaryOp, ast.Name)) else None
+            if isinstance(st.value, ast.Constant) and not isinstance(st.value.value, bool): v = None
+            return {'normal': [{st.targets[0].id: v}]}
+        return None
+    IN2 = Machine(g, names, effect2, atom2).run([{n_: None for n_ in names}])
+    okc = any(cn.id in IN2 for cn in commits) and not any(x.id in IN2 for x in rb if not any(x.id in g.reach([cn], include_src=False) for cn in commits))
+    ctx.ob('C18-GATE.normal-finish-commits', cr, commits[0].ast if commits else cr.node, okc,
+           '' if okc else 'with no exception (exc_type is None) the function does not reach commit(), or reaches rollback() first')
 
     # ------------------------------------------------------------- NEST
     g = cg.cfg(exit_fn)
@@ -139,7 +174,7 @@ def run(ctx):
     # ------------------------------------------------------------- RETRY
     nf = repo.fn(CM[0], 'DBSessionContextManager._wrap_function.<locals>.new_func')
     g = cg.cfg(nf); recv = nf.parent.recv
-    loops = [n for n in g.nodes if n.kind == 'iter']
+    loops = [n for n in g.nodes if n.kind == 'iter' and norm(n.ast.target) != '__once']      # `__once` = one-trip loop of an inlined helper
     whiles = [st for st in walk_no_nested(nf.node) if isinstance(st, ast.While)]
     retry_loops = [l for l in loops if norm(l.ast.iter) == 'range(%s.retry + 1)' % recv]
     ok = len(retry_loops) == 1 and not whiles and len(loops) == 1
@@ -181,24 +216,36 @@ def run(ctx):
         ok = bool(rbs) and loop.id not in rr
         ctx.ob('C18-RETRY.rollback-before-next-attempt', nf, h.ast, ok,
                '' if ok else 'the next attempt is reachable from the handler without rollback()')
-        # non-retryable => raise: the false edge of `if not do_retry` ... i.e. T edge must not reach the loop
-        nt = [t for t in g.nodes if t.kind == 'test' and norm(t.ast) == 'not do_retry']
-        ok = bool(nt)
-        for t in nt:
-            ts = [y for y, lab in g.succ[t.id] if lab == 'T']
-            if loop.id in g.reach(ts, avoid=[t]) or g.exit.id in g.reach(ts): ok = False
-        ctx.ob('C18-RETRY.non-retryable-reraises', nf, nt[0].stmt if nt else h.ast, ok,
-               '' if ok else 'a non-retryable exception can start another attempt or be swallowed')
-    dr = [n for n in g.nodes if n.kind == 'stmt' and isinstance(n.ast, ast.Assign) and any(dotted(t) == 'do_retry' for t in n.ast.targets)]
-    ctx.floor('C18-RETRY', len(dr), 3, 'definitions of do_retry')
-    allowed = {'True', 'issubclass(exc_type, tuple(retry_exceptions))', 'retry_exceptions(exc)'}
-    sr = {t.id for t in g.nodes if t.kind == 'test' and norm(t.ast) == "getattr(exc, 'should_retry', False)"}
-    for d in dr:
-        rhs = norm(d.ast.value); ok = rhs in allowed; detail = '' if ok else 'do_retry defined from %s' % rhs
-        if ok and rhs == 'True':
-            rr = g.reach([g.entry], edge_ok=lambda x, y, lab: not (x in sr and lab == 'T'))
-            if d.id in rr: ok = False; detail = '`do_retry = True` not guarded by exc.should_retry'
-        ctx.ob('C18-RETRY.do_retry-definition', nf, d.ast, ok, detail)
+        # a non-retryable exception re-raises: evaluate the handler with every retry criterion answering "no" (exc.should_retry falsy, the
+        # exception not in retry_exceptions / the predicate returning false) -- local flags are tracked -- and require that neither the next
+        # attempt nor a normal return is reachable.  Anything else the decision consults is unknown (both outcomes explored), so a decision
+        # that depends on something other than the documented criteria is reported too.
+        from ..typestate import Machine, eval_test
+        names = sorted({t_.id for st in ast.walk(nf.node) if isinstance(st, ast.Assign) for t_ in st.targets if isinstance(t_, ast.Name)})
+        def crit(text):
+            t_ = text.replace(' ', '')
+            if t_ == "getattr(exc,'should_retry',False)": return False
+            if t_.startswith('issubclass(exc_type,') and 'retry_exceptions' in t_: return False
+            if re.fullmatch(r'(\w+\.)?retry_exceptions\(exc\)', t_): return False
+            return None
+        def atom(text, env):
+            c = crit(text)
+            if c is not None: return c
+            if text in env: return env[text]
+            return None
+        def effect(node, env):
+            st = node.ast
+            if node.kind == 'stmt' and isinstance(st, ast.Assign) and len(st.targets) == 1 and isinstance(st.targets[0], ast.Name):
+                v = eval_test(st.value, lambda t_, n_: atom(t_, env)) if isinstance(st.value, (ast.Constant, ast.Call, ast.Compare, ast.BoolOp, ast.UnaryOp, ast.Name)) else None
+                if isinstance(st.value, ast.Constant) and not isinstance(st.value.value, bool): v = None
+                return {'normal': [{st.targets[0].id: v}]}
+            return None
+        mach = Machine(g, names, effect, atom)
+        IN = mach.run([{n_: None for n_ in names}], start=h)
+        bad = [x for x in (loop, g.exit) if x.id in IN]
+        ctx.ob('C18-RETRY.non-retryable-reraises', nf, h.ast, not bad,
+               '' if not bad else 'with exc.should_retry falsy and the exception outside retry_exceptions the handler can still reach %s: a non-retryable exception '
+               'starts another attempt or is swallowed (or the decision depends on something else than the documented criteria)' % ['the next attempt' if x is loop else 'a normal return' for x in bad])
     rets = [n for n in g.nodes if n.kind == 'stmt' and isinstance(n.ast, ast.Return) and n.lineno > loop.lineno
             and n.copy == '']
     cms = nodes_calling(g, lambda c: isinstance(c.func, ast.Name) and c.func.id == 'commit')
@@ -257,7 +304,7 @@ def run(ctx):
 
 MUTANTS = [
     dict(id='C18-m1', file='pony/orm/core.py', fn='DBSessionContextManager._commit_or_rollback',
-         old='if exc_type is None: can_commit = True', new='if exc is None: can_commit = True', expect='C18-GATE.can_commit-definition'),
+         old='if exc_type is None: can_commit = True', new='if exc is None: can_commit = True', expect='C18-GATE.disallowed-exception-never-commits'),
     dict(id='C18-m2', file='pony/orm/core.py', fn='DBSessionContextManager._commit_or_rollback',
          old='                try: rollback()\n                except:\n                    if exc_type is None: raise  # if exc_type is not None it will be reraised outside of __exit__\n',
          new='                pass\n', expect='C18-GATE.else-rolls-back'),
@@ -288,5 +335,5 @@ MUTANTS = [
          old='                    finally:\n                        db_session.__exit__(exc_type, exc, tb)',
          new='                    else:\n                        db_session.__exit__(exc_type, exc, tb)', expect='C18-RETRY.exit-on-every-path'),
     dict(id='C18-m12', file='pony/orm/core.py', fn='DBSessionContextManager._wrap_function',
-         old="if getattr(exc, 'should_retry', False):", new="if getattr(exc, 'should_retry', True):", expect='C18-RETRY.do_retry-definition'),
+         old="if getattr(exc, 'should_retry', False):", new="if getattr(exc, 'should_retry', True):", expect='C18-RETRY.non-retryable-reraises'),
 ]
